@@ -155,6 +155,22 @@ static int do_case(const jv *line)
         VD_END();
     }
     use_custom_hooks();
+    /* ownership bits on the nodes (constant keys, references) do not change a single byte */
+    if (ref_text) {
+        char *s2; cJSON *stack[256]; int sp = 0, pass; cJSON *c;
+        for (pass = 0; pass < 2; pass++) {
+            sp = 0; stack[sp++] = t;
+            while (sp) { cJSON *x = stack[--sp]; if (pass == 0) { if (x->string) x->type |= cJSON_StringIsConst; x->type |= cJSON_IsReference; } else x->type &= 0xFF; for (c = x->child; c && sp < 256; c = c->next) stack[sp++] = c; }
+            if (pass == 0 && L < 5000) {
+                s2 = fmt ? cJSON_Print(t) : cJSON_PrintUnformatted(t);
+                if (!s2 || strcmp(s2, ref_text)) viol("C04 C05", "with ownership flags set on the nodes the printed text differs: %.100s", s2 ? s2 : "(null)");
+                cJSON_free(s2);
+                s2 = cJSON_PrintBuffered(t, 1, fmt);
+                if (!s2 || strcmp(s2, ref_text)) viol("C04 C05", "with ownership flags set on the nodes cJSON_PrintBuffered gives different text");
+                cJSON_free(s2);
+            }
+        }
+    }
     /* formatted minus whitespace = unformatted, plain integers */
     if (ref_text && fmt) {
         char *u = cJSON_PrintUnformatted(t), *st = strip_ws(ref_text);
